@@ -178,7 +178,7 @@ def run(ck, ctx):
                 ck.ob("R14.5", f"{callee} is called by compute()", False, CG.res.value, func, "")
                 continue
             for fi, site, loc, v, pc in cs:
-                a = loc.get(param)
+                a = getattr(loc, "entry", loc).get(param)        # the argument as passed (a stage may rebind the name)
                 if a is None:
                     ck.ob("R14.5", f"{callee}({param}=...) bound", False, v, func, "parameter not found")
                     continue
